@@ -448,6 +448,28 @@ def neg_width(parsed):
     return w
 
 
+def deriv_blowup(items, n):
+    """the derivative matcher of D42.Regex keeps no alternative-normal form: x{m,m+d} on n
+    characters grows like C(d, n); nested variable repeats multiply"""
+    import math
+    f = 1
+    for op, av in items:
+        if op == src.BRANCH:
+            for a in av[1]:
+                f *= deriv_blowup(a, n)
+        elif op == src.SUBPATTERN:
+            f *= deriv_blowup(av[3], n)
+        elif op in (src.MAX_REPEAT, src.MIN_REPEAT):
+            mn, mx, body = av
+            inner = deriv_blowup(body, n)
+            if mx == src.MAXREPEAT:
+                f *= inner * (min(n, 6) if inner > 1 or star_height(body) else 1)
+            else:
+                d = int(mx - mn)
+                f *= math.comb(d, min(n, d // 2)) * inner ** min(int(mx), 3)
+    return f
+
+
 def rx_cost(items):
     """rough size of the derivative matcher's expression"""
     total = 1
@@ -809,7 +831,7 @@ def run(ctx):
         if per_pat.get(x.pattern, 0) >= ctx.scale(2, 4):
             continue
         parsed = tree_of(x.pattern)
-        if len(x.out) > 24 or rx_cost(parsed) > 400:
+        if len(x.out) > 24 or rx_cost(parsed) * deriv_blowup(parsed, len(x.out) + 1) > 20000:
             stats["sem_too_big"] += 1
             continue
         per_pat[x.pattern] = per_pat.get(x.pattern, 0) + 1
